@@ -73,6 +73,8 @@ def findByName (h : Holder) (name : String) : String :=
 def modelStep (h : Holder) (ws : List String) : Holder × String :=
   match ws with
   | ["init"] => (init, "ok")
+  | ["reinit"] => (reinit h, "ok")
+  | ["reset", _] => (reinit h, "ok")
   | ["sec", name, al, ord] =>
     match al.toNat?, ord.toInt? with
     | some a, some o =>
@@ -174,6 +176,12 @@ def judge (m : Mon) (op ans : List String) (pre post : Obs) : Mon × String :=
     else if !csOk then (m, s!"BAD codesize code_size()={toHex post.cs} expected {toHex (codeSizeSpec post.secs)}")
     else (m, verdict)
   match op, ans with
+  | "reinit" :: _, ["ok"] =>
+    if post.secs == initObs.secs && post.cs == 0 && post.at?.isNone then ({ Mon.init with cur := post }, "good")
+    else (m, "BAD reuse-state after reinit the section table is not the table of a fresh CodeHolder")
+  | "reset" :: _, ["ok"] =>
+    if post.secs == initObs.secs && post.cs == 0 && post.at?.isNone then ({ Mon.init with cur := post }, "good")
+    else (m, "BAD reuse-state after reset+init the section table is not the table of a fresh CodeHolder")
   | ["sec", name, al, ord], ["ok", id] =>
     match al.toNat?, ord.toInt?, id.toNat? with
     | some a, some o, some i =>
@@ -271,6 +279,10 @@ def monStep (m : Mon) (op ans : List String) : Mon × String :=
       match unrle img with
       | some o =>
         if !fitsB n m.cur.secs then (m, "BAD copy-refusal a destination that is too small was accepted")
+        else if o.length != n then (m, "BAD copy-image result length differs from the destination")
+        -- byte exactness is a statement about tables WITHOUT overlap (sections changed after the last flatten may overlap:
+        -- then later sections overwrite earlier ones and the property says nothing)
+        else if !noOverlapB m.cur.secs then (m, "good")
         else if imageGood m.cur.secs n (CopyFlags.ofNat fl) initFn (some o) then (m, "good")
         else (m, "BAD copy-image flattened image is not exact")
       | none => (m, "bad-op")
